@@ -24,9 +24,9 @@ def run(ctx):
             CR.corpus_done(res)
     ctx.finish_proof()
     ctx.coverage.update({
-        "evaluations": st["decl_concrete_checked"] + st["name_vs_inline_values"] + st["as_twins"] + st["inline_twin_values"] + st["bodies"] + st.get("flatten_twin_values", 0),
+        "evaluations": st["decl_concrete_checked"] + st["name_vs_inline_values"] + st["as_twins"] + st["inline_twin_values"] + st["bodies"] + st.get("flatten_twin_values", 0) + st.get("name_inline_equivalences", 0),
         "distinct_nontrivial": len(distinct),
-        "rule": "generated corpus compiled against /repo; every definition with a field-level `as = \"U\"` has a generated twin whose field has type U (real declarations must be equal text), every definition with `inline` fields has a twin without `inline` (the same real serde_json values must be members of both real declarations, decided by Coq on the parsed real text); every host with flattened fields has a twin without them (the same real values must be members of the host declaration and of the intersection `Twin & Flattened..` read against the real declarations); for every value of every query type membership by the real name() and by the real inline() must agree; the real decl_concrete() must be `type N = ` + real inline() + `;`; norm_ok: the textual merge/paren-stripping of every declaration body equals its structural meaning; model text vs real text byte for byte; non-trivial = distinct (type, JSON) pairs and twin pairs compared",
+        "rule": "generated corpus compiled against /repo; every definition with a field-level `as = \"U\"` has a generated twin whose field has type U (real declarations must be equal text), every definition with `inline` fields has a twin without `inline` (the same real serde_json values must be members of both real declarations, decided by Coq on the parsed real text); every host with flattened fields has a twin without them (the same real values must be members of the host declaration and of the intersection `Twin & Flattened..` read against the real declarations); for every library type expression (incl. arrays of 63 / 64 / 65 elements) the inhabitants Coq enumerates of the real name() are members of the real inline() and vice versa; for every value of every query type membership by the real name() and by the real inline() must agree; the real decl_concrete() must be `type N = ` + real inline() + `;`; norm_ok: the textual merge/paren-stripping of every declaration body equals its structural meaning; model text vs real text byte for byte; non-trivial = distinct (type, JSON) pairs and twin pairs compared",
         "samples": samples[:6],
         "distribution": st,
     })
@@ -148,6 +148,16 @@ def check_one(ctx, res, seed, st, samples, distinct):
             viol.append(dict(kind="property-violated", what="a host with flattened fields does not denote the intersection of its own fields and the flattened types",
                              json=text, member_of_host_declaration=a, member_of_intersection=b, intersection=inter,
                              host_declaration=res["q"][first_q[host["ident"]]]["decl"], definition=C.to_rust(host), seed=seed))
+    # O7: name() and inline() of a library type expression denote the same set: inhabitants of either (enumerated by Coq)
+    # are members of the other; needs no serde (arrays beyond 32 elements have no Serialize impl)
+    lib_q = [i for i, t in enumerate(qs) if t[0] != "named" and not res["q"][i]["inline"].startswith("\x00") and not res["q"][i]["name"].startswith("\x00")
+             and not ({d["ident"] for d in reach(by, t)} & (unparsable | ov))]
+    weq = S.witness_equiv(res, [(res["q"][i]["name"], res["q"][i]["inline"]) for i in lib_q], "c14weq")
+    st["name_inline_equivalences"] = st.get("name_inline_equivalences", 0) + len(lib_q)
+    for i, w in zip(lib_q, weq):
+        if w:
+            viol.append(dict(kind="property-violated", what="name() and inline() of a library type denote different sets of values",
+                             type=C.rust_ty(qs[i]), name=res["q"][i]["name"][:300], inline=res["q"][i]["inline"][:300], separating_value=w[:300], seed=seed))
     # O5: the textual rewrites coincide with the structural merge
     st["bodies"] += len(bodies)
     for i, okb in bodies.items():
